@@ -209,7 +209,7 @@ def run_threaded(sc, max_rounds=120):
                 for k, item in enumerate(p['items']):
                     me.sleep(item.get('gap', 0) or 0)
                     r, failed = _do_emit(ctx, src, entry, pid, k, item, bg)
-                    if not failed and 'flush' not in item:
+                    if not failed and 'flush' not in item and 'restart' not in item:
                         rec.rec('emit_done', pid, k, 'ok')
                     me.state = 'ready'
                     me.yield_baton()          # operation finished: a scheduling point
